@@ -458,7 +458,7 @@ class LowerToIRVisitor(Visitor.DefaultVisitor):
                 assert isinstance(value, LinearIR.Value)
 
                 si = LinearIR.ShuffleInstruction(
-                    ctx.AdaptType(expr.GetType()),
+                    value.Type,
                     value,
                     ctx.AssignmentValue,
                     indices,
